@@ -98,6 +98,9 @@ def insert : Nat := 226
 def raw : Nat := 227
 def offset : Nat := 228
 -- free functions / associated functions
+def SyntaxNode.new_child : Nat := 312
+def SyntaxElement.new : Nat := 313
+def try_write : Nat := 252
 def Arc.new : Nat := 310
 def Arc.clone : Nat := 311
 def drop : Nat := 307
